@@ -54,6 +54,13 @@ def gen_case(rng, tier, avoid):
                     op['kwargs'].setdefault('set_name', sn['set_name'])
         genmeta.populate(spec, lfi, rng, n=rng.choice([0, 2, 4, 7]), routes=False, set_name=sn.get('set_name'), p_attr=0.3)
     ops = spec.ops
+    if rng.random() < 0.25:
+        # calls the library rejects (the sets they touched first must neither appear nor disturb the mandated order)
+        from . import c20
+        for n in range(rng.choice([1, 2])):
+            sb = c20.schema_bad(rng, spec.lfs[0], n)
+            if sb:
+                ops.insert(rng.randint(2, len(ops)), sb[0])
     mode = rng.choice(['as_is', 'shuffle', 'shuffle', 'origin_last'])
     if n_lf > 1 and 'cross_lf_backfill' in avoid:
         mode = 'as_is'
